@@ -706,7 +706,7 @@ EXTERN_DLL_EXPORT CPathsD InflatePathsD(const CPathsD paths,
   if (precision < -8 || precision > 8 || !paths) return nullptr;
 
   const double scale = std::pow(10, precision);
-  ClipperOffset clip_offset(miter_limit, arc_tolerance, false, reverse_solution);
+  ClipperOffset clip_offset(miter_limit, arc_tolerance * scale, false, reverse_solution);
   Paths64 pp = ConvertCPathsDToPaths64(paths, scale);
   clip_offset.AddPaths(pp, JoinType(jointype), EndType(endtype));
   Paths64 result;
@@ -737,7 +737,7 @@ EXTERN_DLL_EXPORT CPathsD InflatePathD(const CPathD path,
     if (precision < -8 || precision > 8 || !path) return nullptr;
 
     const double scale = std::pow(10, precision);
-    ClipperOffset clip_offset(miter_limit, arc_tolerance, false, reverse_solution);
+    ClipperOffset clip_offset(miter_limit, arc_tolerance * scale, false, reverse_solution);
     Path64 pp = ConvertCPathDToPath64WithScale(path, scale);
     clip_offset.AddPath(pp, JoinType(jointype), EndType(endtype));
     Paths64 result;
